@@ -23,7 +23,8 @@ var Entries = []string{"", "a", "b", "ab", "a*", "*", "-", "-a", "-b", "-ab", "-
 
 var Requests = []string{"", "a", "b", "ab", "abc", "*", "-", "-a", "a*", "s", "t", "a/s", "pods", "deployments",
 	"pods/status", "status", "sys", "sysadm", "g", "h", "/x", "/x/", "/x/y", "/xy", "/", "system:serviceaccount:n:a",
-	"system:serviceaccount:n:", "*/s", "-pods"}
+	"system:serviceaccount:n:", "*/s", "-pods", "system:serviceaccount:nx:a", "system:serviceaccount:n:xa", "system:serviceaccount:n-canary:a",
+	"system:serviceaccount:xn:a", "system:serviceaccount:n:a:b", "system:serviceaccount:n::a", "system:serviceaccount::a", "system:serviceaccount:kube-system:default"}
 
 func randBytes(r *rand.Rand) string {
 	n := r.Intn(6)
@@ -108,7 +109,7 @@ func SAs(r *rand.Rand) []proxyv1alpha1.ServiceAccountRef {
 	}
 	var l []proxyv1alpha1.ServiceAccountRef
 	for i := 0; i < n; i++ {
-		l = append(l, proxyv1alpha1.ServiceAccountRef{Namespace: rig.Pick(r, []string{"", "n", "m"}), Name: rig.Pick(r, []string{"", "a", "b"})})
+		l = append(l, proxyv1alpha1.ServiceAccountRef{Namespace: rig.Pick(r, []string{"", "n", "m", "kube", "n:a", "n-canary"}), Name: rig.Pick(r, []string{"", "a", "b", "default", "a:b"})})
 	}
 	return l
 }
@@ -184,7 +185,23 @@ func AttrsFor(r *rand.Rand, rule proxyv1alpha1.DispatchPolicyRule, raw bool) Att
 	a.User = from(rule.Users, a.User)
 	if len(rule.ServiceAccounts) > 0 && r.Intn(3) == 0 {
 		sa := rule.ServiceAccounts[r.Intn(len(rule.ServiceAccounts))]
-		a.User = proxyv1alpha1.MakeServiceAccountUsername(sa.Namespace, sa.Name)
+		ns, name := sa.Namespace, sa.Name
+		// the listed account itself, or a near miss: another namespace/name that shares a prefix or suffix with it
+		switch r.Intn(8) {
+		case 0:
+			ns += rig.Pick(r, []string{"x", "-canary", "-system", ":"})
+		case 1:
+			ns = rig.Pick(r, []string{"x", "kube-"}) + ns
+		case 2:
+			name = rig.Pick(r, []string{"x", "pre-"}) + name
+		case 3:
+			name += rig.Pick(r, []string{"x", "-2"})
+		case 4:
+			if len(ns) > 1 {
+				ns = ns[:len(ns)-1]
+			}
+		}
+		a.User = proxyv1alpha1.MakeServiceAccountUsername(ns, name)
 	}
 	if g := from(rule.UserGroups, ""); g != "" || r.Intn(2) == 0 {
 		a.Groups = append(a.Groups, g)
